@@ -293,10 +293,33 @@ def balance_oracle(niche_of, counts_total, last_members, selected_set):
     return None
 
 
-def nsga3_call_oracle(pop, wv, sel, k, cap):
+_FIND_EXTREME = emo.find_extreme_points
+_FIND_INTERCEPTS = emo.find_intercepts
+
+
+def independent_normalisation(F, mem):
+    """Ideal point and intercepts derived from the minimised objective matrix F that the harness built
+    itself from the individuals (never from data seen inside selNSGA3).  The LAPACK part uses DEAP's
+    own find_extreme_points / find_intercepts on that matrix.  mem = None (plain selNSGA3) or the
+    harness's own copy of the memory {best, worst, extreme}; returns (best, intercepts, new mem)."""
+    if mem is not None:
+        best = numpy.min(numpy.concatenate((F, mem["best"].reshape(1, -1)), axis=0), axis=0)
+        worst = numpy.max(numpy.concatenate((F, mem["worst"].reshape(1, -1)), axis=0), axis=0)
+        ext0 = mem["extreme"]
+    else:
+        best, worst, ext0 = numpy.min(F, axis=0), numpy.max(F, axis=0), None
+    extreme = _FIND_EXTREME(F, best, ext0)
+    front_worst = numpy.max(F, axis=0)
+    intercepts = _FIND_INTERCEPTS(extreme, best, worst, front_worst)
+    return best, intercepts, {"best": best, "worst": worst, "extreme": extreme}
+
+
+def nsga3_call_oracle(pop, wv, sel, k, cap, refs, mem):
+    """wv: weighted values computed by the harness from the case description.  Returns
+    (message, positions, near_tie, new independent memory)."""
     msg, pos = common_oracle(pop, sel, k, "selNSGA3")
     if msg:
-        return msg, pos, False
+        return msg, pos, False, mem
     rank = brute_ranks(wv)
     selset = set(pos)
     worst_sel = max(rank[p] for p in pos)
@@ -304,19 +327,27 @@ def nsga3_call_oracle(pop, wv, sel, k, cap):
         if q not in selset and rank[q] < worst_sel:
             x = next(p for p in pos if rank[p] > rank[q])
             return ("individual %d of front %d is left out although individual %d of front %d is selected"
-                    % (q, rank[q], x, rank[x])), pos, False
-    # association (relative to the normalisation the code computed)
+                    % (q, rank[q], x, rank[x])), pos, False, mem
+    # the minimised objective matrix, built here from the individuals: -(value * weight), in the order of
+    # the flattened fronts (only the *order* comes from the sort; the numbers do not)
     flat = positions(pop, [x for fr in cap["fronts"] for x in fr])
-    msg, near = assoc_oracle(cap["fitnesses"], cap["refs"], cap["best"], cap["intercepts"], cap["niches"], cap["dist"])
+    F = numpy.array([[-x for x in wv[p]] for p in flat], dtype=float)
+    best, intercepts, mem2 = independent_normalisation(F, mem)
+    # (a) the association the implementation used, judged in the independently normalised space
+    if len(cap["niches"]) != len(flat):
+        return "association covers %d individuals, %d were sorted" % (len(cap["niches"]), len(flat)), pos, False, mem2
+    msg, near = assoc_oracle(F, refs, best, intercepts, cap["niches"], cap["dist"])
     if msg:
-        return "association: " + msg.replace("individual", "flattened-front position"), pos, near
+        return ("association (normalised space rebuilt from -wvalues): " +
+                msg.replace("individual", "flattened-front position")), pos, near, mem2
+    # (b) niche balance of the returned selection w.r.t. that (now validated) association
     niche_of = {p: int(cap["niches"][t]) for t, p in enumerate(flat)}
     counts = {}
     for p in pos:
         counts[niche_of[p]] = counts.get(niche_of[p], 0) + 1
     last = [q for q in range(len(pop)) if rank[q] == worst_sel]
     msg = balance_oracle(niche_of, counts, last, selset)
-    return msg, pos, near
+    return msg, pos, near, mem2
 
 
 # ----------------------------------------------------------------------------------------------
@@ -397,6 +428,9 @@ def eval_nsga3(d):
     selector = emo.selNSGA3WithMemory(refs, d["nd"]) if d["k"] == "nsga3mem" else None
     lines, expect, msg = [], [], None
     rng = _random.Random(d.get("seed", 0))
+    # the harness's own copy of the memory (selNSGA3WithMemory.__init__: +inf / -inf / None)
+    imem = None if selector is None else {"best": numpy.full(M, numpy.inf), "worst": numpy.full(M, -numpy.inf),
+                                          "extreme": None}
     for vals, k in zip(pops, ks):
         pop = make_pop(w, vals)
         wv = [tuple(float(x) * float(Fr(ww)) for x, ww in zip(v, w)) for v in vals]
@@ -411,7 +445,7 @@ def eval_nsga3(d):
                 memory = None
         cap = cp.calls[-1]
         cap["draws"] = sh.draws
-        m, pos, near = nsga3_call_oracle(pop, wv, sel, k, cap)
+        m, pos, near, imem = nsga3_call_oracle(pop, wv, sel, k, cap, refs, imem)
         if m and msg is None:
             msg = m
         if any(p is None for p in pos):
@@ -586,17 +620,43 @@ def gen_spea2(rng, nmax=14):
     return {"k": "spea2", "w": w, "vals": vals, "kk": k, "shape": shape, "seed": rng.randrange(1 << 30)}
 
 
+def front_vals(rng, n, w):
+    """one non-dominated front (points of a simplex in *minimisation* form, optionally plus a dominated
+    layer), converted to raw values for the weights w: raw = -min_form / weight (exact dyadics)."""
+    m = len(w)
+    s = rng.randint(3, 12)
+    pts = []
+    for _ in range(n):
+        cut = sorted(rng.randint(0, s) for _ in range(m - 1))
+        pt = [b - a for a, b in zip([0] + cut, cut + [s])]
+        if rng.random() < 0.2:
+            pt = [x + rng.randint(1, 3) for x in pt]          # a dominated one
+        pts.append(pt)
+    return [[float(-Fr(x) / Fr(ww)) for x, ww in zip(pt, w)] for pt in pts]
+
+
 def gen_nsga3(rng, nmax=14, mem=False):
     m = rng.randint(2, 5)
     w = rand_weights(rng, m)
+    if rng.random() < 0.35:
+        # at least one maximised objective, non-unit magnitudes likely
+        w = [rng.choice(["1", "2", "1/2"]) if rng.random() < 0.5 else rng.choice(["-1", "-2", "-1/2"]) for _ in range(m)]
+        if all(x.startswith("-") for x in w):
+            w[rng.randrange(m)] = rng.choice(["1", "2", "1/2"])
     p = rng.randint(1, 8 if (m <= 3 or rng.random() < 0.08) else (5 if m == 4 else 4))
     scaling = rng.choice([None, None, "1/2"])
     nd = rng.choice(["log", "standard"])
     shape = rng.choice(SHAPES)
     integer = rng.random() < 0.6
 
+    if rng.random() < 0.3:
+        shape = "front"
+
     def one():
         n = rng.randint(1, nmax)
+        if shape == "front":
+            n = max(n, 3)
+            return front_vals(rng, n, w), rng.randint(1, n - 1)     # the last front has to be cut
         vals = gen_vals(rng, n, m, shape, integer)
         r = rng.random()
         k = n if r < 0.12 else (1 if r < 0.2 else rng.randint(1, n))
